@@ -303,9 +303,35 @@ pub fn functor_goal(args: &[T], s: &Sub) -> Result<Option<Sub>, String> {
 /// Stands for an unfilled `%s` marker in reference output.
 pub const UNFILLED: char = '\u{1}';
 
+/// Stands for the elapsed time written by `time(G)`: `<n> second(s) <m> microseconds `.
+pub const TIMING: char = '\u{2}';
+
+fn strip_timing(g: &str) -> Option<&str> {
+    let d1 = g.find(|c: char| !c.is_ascii_digit())?;
+    if d1 == 0 {
+        return None;
+    }
+    let rest = g[d1..].strip_prefix(" seconds ").or_else(|| g[d1..].strip_prefix(" second "))?;
+    let d2 = rest.find(|c: char| !c.is_ascii_digit())?;
+    if d2 == 0 {
+        return None;
+    }
+    rest[d2..].strip_prefix(" microseconds ")
+}
+
 /// Does the engine's output equal the reference's, where each UNFILLED in the
-/// reference may be the empty string or a literal `%s`?
+/// reference may be the empty string or a literal `%s`, and each TIMING is an
+/// elapsed-time report?
 pub fn out_matches(reference: &str, got: &str) -> bool {
+    if let Some(i) = reference.find(TIMING) {
+        if !reference[..i].contains(UNFILLED) {
+            let (head, rest) = (&reference[..i], &reference[i + TIMING.len_utf8()..]);
+            return match got.strip_prefix(head) {
+                None => false,
+                Some(g) => strip_timing(g).map_or(false, |g2| out_matches(rest, g2)),
+            };
+        }
+    }
     match reference.find(UNFILLED) {
         None => reference == got,
         Some(i) => {
